@@ -12,7 +12,8 @@ namespace Cg.C16
 open Cg
 variable {α β γ : Type}
 
-/-! ## arrays / tuples / index: field order x, y, z, w -/
+/-! ## arrays / index: field order x, y, z, w  (no tuple statement in this section: the tuple views
+`ofTuple` / `toTuple` are in `Props/C16c.lean`) -/
 def V4.ofList? : List α → Option (V4 α)
   | [a, b, c, d] => some ⟨a, b, c, d⟩
   | _ => none
@@ -50,7 +51,8 @@ theorem matrix_views (m : M4 α) (c r : Fin 4) :
 theorem matrix_set_flat (m : M4 α) (c r : Fin 4) (a : α) :
     (m.set? c r a).map M4.toList = some (m.toList.set (4 * c.val + r.val) a) := by
   fin_cases c <;> fin_cases r <;> rfl
-/-- quaternion: array / tuple order is `x, y, z, s`; `Quaternion::new` takes the scalar first -/
+/-- quaternion: array order is `x, y, z, s` (the tuple view has the same order; it is not stated here, see `Props/C16c.lean`);
+`Quaternion::new` takes the scalar first -/
 def Quat.toArray (q : Quat α) : List α := [q.v.x, q.v.y, q.v.z, q.s]
 def Quat.ofArray? : List α → Option (Quat α)
   | [x, y, z, s] => some (Quat.new s x y z)
@@ -88,7 +90,9 @@ theorem swapElements_spec (v : V4 α) (i j : Fin 4) :
 /-! ## swizzles: the generator of build.rs produces every word exactly once, each reading exactly
 the named components in order -/
 def letters (s : String) : List Char := s.toList
-/-- body fields = name, for every generated accessor of every configuration -/
+/-- body fields = name, for every accessor of every configuration produced by the model's generator `genSwizzleAll` (which
+appends the same letter to the name and to the body at every step, so this holds by construction of that generator; the check of the emitted TEXT against the name
+is `swizzle_text_ok` / `*.swizzle_sound_text`, `Props/C16c.lean`) -/
 theorem swizzle_sound :
     (genSwizzleAll (letters "x") 3).all (fun p => p.1 == p.2) = true ∧
     (genSwizzleAll (letters "xy") 3).all (fun p => p.1 == p.2) = true ∧
